@@ -1,18 +1,23 @@
-#!/bin/sh
+#!/bin/bash
 # Runs every seeded change (seeded/<id>/patch.diff) against the quick check of the property it breaks, on a scratch copy
-# of /repo/src, and writes seeded/RESULTS.tsv (id, property, exit code, summary line). /repo is never touched.
+# of /repo/src, and writes seeded/RESULTS.tsv (id, property, exit code, summary line, first signatures). /repo is never
+# touched.  usage: tools/run_seeded.sh [parallel jobs, default 3]
 cd /verif
-out=seeded/RESULTS.tsv
-: > $out.tmp
-for d in seeded/*/; do
-  id=$(basename $d)
-  [ -f $d/patch.diff ] || continue
+jobs=${1:-3}
+tmp=$(mktemp -d /tmp/xdv-seeded.XXXXXX)
+export tmp
+one() {
+  d=$1; id=$(basename $d)
   prop=$(python3 -c "import json;print(json.load(open('$d/meta.json'))['breaks_property'])")
   res=$(tools/run_mutant.sh $d/patch.diff $prop 2>&1)
   rc=$(echo "$res" | grep -a '^rc=' | tail -1 | cut -d= -f2)
   line=$(echo "$res" | grep -a "^$prop " | tail -1)
   sigs=$(echo "$res" | grep -a "violations with signature" | head -2 | sed 's/  violations with signature //' | tr '\n' ' ')
-  printf '%s\t%s\t%s\t%s\t%s\n' "$id" "$prop" "$rc" "$line" "$sigs" >> $out.tmp
+  printf '%s\t%s\t%s\t%s\t%s\n' "$id" "$prop" "$rc" "$line" "$sigs" > $tmp/$id.tsv
   echo "$id $prop rc=$rc"
-done
-mv $out.tmp $out
+}
+export -f one
+ls -d seeded/*/ | sed 's#/$##' | xargs -P $jobs -I{} bash -c 'one {}'
+cat $tmp/*.tsv | sort > seeded/RESULTS.tsv
+rm -rf $tmp
+awk -F'\t' '$3 != 1 {print "NOT DETECTED: " $1 " (" $2 ") rc=" $3}' seeded/RESULTS.tsv
